@@ -25,7 +25,7 @@ def run(ctx):
         ctx.mc("MCWitness", "Witness_mc.cfg", timeout=900)
     else:
         rows = ctx.gen("MCWitness", "Witness_quick.cfg" if q else "Witness_thorough.cfg", "ROW", timeout=1200)
-        if len(rows) < 7000:
+        if len(rows) < 11000:
             ctx.fail("too few table rows generated: %d" % len(rows))
     out = ctx.driver(b, ["witness-table"], input_obj=rows)
     summ = [o for o in out if o.get("summary")]
@@ -41,7 +41,7 @@ def run(ctx):
         o = res[i]
         if o.get("panic"):
             ctx.note("poly code panicked in %s: %s" % (r["m"], o["panic"][:300]))
-        events.append({"m": r["m"], "named": r["named"], "signers": r["signers"], "ctx": r["ctx"], "ep": r["ep"],
+        events.append({"m": r["m"], "named": r["named"], "signers": r["signers"], "ctx": r["ctx"], "ep": r["ep"], "path": r["path"],
                        "got": o["got"], "changed": o["changed"]})
     ok, hw, tr = ctx.validate_trace("TraceWitness", "TraceWitness.cfg", events, timeout=1200)
     if not ok:
@@ -58,7 +58,7 @@ def run(ctx):
         if o["got"] == "accept":
             accepted_per_method[r["m"]] = accepted_per_method.get(r["m"], 0) + 1
         if not v["ok"]:
-            ctx.violation(key_of(r["m"]), {"method": r["m"], "named": r["named"], "signers": r["signers"], "calling_contracts": r["ctx"],
+            ctx.violation(key_of(r["m"]), {"method": r["m"], "named": r["named"], "signers": r["signers"], "calling_contracts": r["ctx"], "signer_address_path": r["path"],
                                            "epoch_due": r["due"], "epoch": r["ep"], "epoch_length": r["mbv"][0] * 65536 + r["mbv"][1],
                                            "epoch_began_at": r["vhv"][0] * 65536 + r["vhv"][1], "call_height": r["hv"][0] * 65536 + r["hv"][1],
                                            "required_witness_present": False, "observed": o["got"],
